@@ -80,9 +80,9 @@ Proof.
   unfold row_dims, mk_row. cbn [ruse rpuse rhigh rphigh].
   repeat split; apply proj3_length; reflexivity.
 Qed.
-Lemma table_dims c ns rs : tbl_dims (dims c) (table c ns rs).
+Lemma table_dims c pool : tbl_dims (dims c) (table_of c pool).
 Proof.
-  unfold table. intros r Hr. apply in_map_iff in Hr. destruct Hr as [m [<- _]]. apply mk_row_dims.
+  unfold table_of. intros r Hr. apply in_map_iff in Hr. destruct Hr as [m [<- _]]. apply mk_row_dims.
 Qed.
 
 Lemma vsum_length d l : (forall v, In v l -> length v = d) -> length (vsum d l) = d.
